@@ -142,6 +142,19 @@ Qed.
 
 Lemma ids13_asc : asc 0 ids13.
 Proof. cbn. repeat split; lia. Qed.
+Lemma ids14_asc : asc 0 ids14.
+Proof. cbn. repeat split; lia. Qed.
+
+(* from here on: any field-id list `ids` the loop may run over (ascending, within the short-form range) *)
+Section Ids.
+Variable fids : list Z.
+Hypothesis Hasc : asc 0 fids.
+Local Notation w_thrift := (CThrift.w_thrift fids).
+Local Notation t_thrift := (CThriftSpec.t_thrift fids).
+Local Notation w_top := (CThrift.w_top fids).
+Local Notation t_top := (CThriftSpec.t_top fids).
+Local Notation ser := (CThrift.ser fids).
+Local Notation to_bytes := (CThrift.to_bytes fids).
 
 Lemma field_spec wd td i32 i32l :
   (forall x, option_map flat (wd x) = option_map wr_elem (td x)) ->
@@ -177,15 +190,15 @@ Qed.
 
 Lemma t_thrift_nib d i32 i32l fs t : t_thrift d i32 i32l fs = Some t -> nib t = 12.
 Proof.
-  destruct d; [discriminate|]. cbn [t_thrift]. intros E.
-  destruct (t_fields _ ids13 fs); [|discriminate]. injection E as <-. reflexivity.
+  destruct d; [discriminate|]. cbn [CThriftSpec.t_thrift]. intros E.
+  destruct (t_fields _ fids fs); [|discriminate]. injection E as <-. reflexivity.
 Qed.
 
 Theorem w_thrift_spec : forall d i32 i32l fs,
   option_map flat (w_thrift d i32 i32l fs) = option_map wr (t_thrift d i32 i32l fs).
 Proof.
   induction d as [|d IH]; intros i32 i32l fs; [reflexivity|].
-  cbn [w_thrift t_thrift].
+  cbn [CThrift.w_thrift CThriftSpec.t_thrift].
   set (wd := fun v : pv => match v with PDict a b c => w_thrift d a b c | _ => None end).
   set (td := fun v : pv => match v with PDict a b c => t_thrift d a b c | _ => None end).
   assert (Hn : forall x t, td x = Some t -> nib t = 12).
@@ -194,24 +207,26 @@ Proof.
   { intros x. pose proof (Hn x) as Hx. destruct x as [| | | | | | |a b c]; try reflexivity. unfold wd, td in *. rewrite IH.
     destruct (t_thrift d a b c) as [t|]; [|reflexivity]. cbn [option_map]. f_equal.
     specialize (Hx t eq_refl). destruct t as [[]| | | | | | | |]; cbn [nib] in Hx; try discriminate Hx. reflexivity. }
-  rewrite (fields_spec _ _ (field_spec wd td i32 i32l Hd Hn) ids13 0%Z fs ltac:(lia) ids13_asc).
-  destruct (t_fields (t_field td i32 i32l) ids13 fs) as [l|]; [|reflexivity].
+  rewrite (fields_spec _ _ (field_spec wd td i32 i32l Hd Hn) fids 0%Z fs ltac:(lia) Hasc).
+  destruct (t_fields (t_field td i32 i32l) fids fs) as [l|]; [|reflexivity].
   cbn [option_map]. rewrite wr_struct. reflexivity.
 Qed.
 
 (* ThriftObject.to_bytes with a large enough buffer writes the specification's encoding of t_top *)
 Theorem ser_spec v : ser v = option_map wr (t_top v).
-Proof. unfold ser, w_top, t_top. destruct v; try reflexivity. apply w_thrift_spec. Qed.
+Proof. unfold CThrift.ser, CThrift.w_top, CThriftSpec.t_top. destruct v; try reflexivity. apply w_thrift_spec. Qed.
+
+End Ids.
 
 (* ================================================================================================
    Refutations on the faithful model (all three live in cencoding.pyx: known findings)
    ================================================================================================ *)
 (* `for i in range(1, 14)`: a value under field id 14 never reaches the output *)
 Definition w14 : pv := PDict false None [(1, PInt 1); (14, PInt 7)]%Z.
-Lemma field14_dropped : exists b d', to_bytes 500000 w14 = OBytes b /\ from_buffer b = Some (d', []) /\ obj_eq w14 d' = false.
+Lemma field14_dropped : exists b d', to_bytes ids13 500000 w14 = OBytes b /\ from_buffer b = Some (d', []) /\ obj_eq w14 d' = false.
 Proof.
-  exists (match to_bytes 500000 w14 with OBytes b => b | _ => [] end).
-  exists (match from_buffer (match to_bytes 500000 w14 with OBytes b => b | _ => [] end) with Some (d, _) => d | None => PNone end).
+  exists (match to_bytes ids13 500000 w14 with OBytes b => b | _ => [] end).
+  exists (match from_buffer (match to_bytes ids13 500000 w14 with OBytes b => b | _ => [] end) with Some (d, _) => d | None => PNone end).
   vm_compute. repeat split.
 Qed.
 
@@ -236,8 +251,8 @@ Proof.
       * exists s'. repeat split; try assumption. rewrite H3. cbn [out rev]. rewrite <- app_assoc. reflexivity.
 Qed.
 
-Theorem silent_truncation cap v ops : w_top v = Some ops -> all_wb ops = true ->
-  to_bytes cap v = OBytes (firstn (N.to_nat cap) (flat ops)).
+Theorem silent_truncation ids cap v ops : w_top ids v = Some ops -> all_wb ops = true ->
+  to_bytes ids cap v = OBytes (firstn (N.to_nat cap) (flat ops)).
 Proof.
   intros E Ha. unfold to_bytes. rewrite E.
   destruct (run_wb cap ops (mkSt 0 []) Ha eq_refl (N.le_0_l cap)) as (s' & Er & _ & _ & H3).
@@ -256,9 +271,9 @@ Proof.
 Qed.
 
 Definition wbig (n : nat) : pv := PDict false None [(1%Z, PBytes (repeat 0 n))].
-Theorem overflow_any_capacity cap : to_bytes cap (wbig (S (N.to_nat cap))) = OOob.
+Theorem overflow_any_capacity cap : to_bytes ids13 cap (wbig (S (N.to_nat cap))) = OOob.
 Proof.
-  unfold to_bytes, wbig, w_top, w_depth. cbn [w_thrift w_fields ids13 lookup Z.eqb Pos.eqb w_field].
+  unfold to_bytes, wbig, w_top, w_depth. cbn [CThrift.w_thrift w_fields ids13 lookup Z.eqb Pos.eqb w_field].
   cbn [option_map]. unfold w_str.
   cbn [app]. rewrite <- app_assoc. cbn [app]. rewrite app_comm_cons.
   rewrite unchecked_copy_overruns; [reflexivity| |reflexivity|apply N.le_0_l|].
